@@ -312,8 +312,10 @@ def coerce(spec, v):
             return (INVALID, v) if v == "abc" else (UNSPEC, v)
         if not _isnum(v):
             return INVALID, v
+        if isinstance(v, float) and math.isnan(v) and any(b in spec for b in ("ge", "gt", "le", "lt")):
+            return INVALID, v  # NaN satisfies no bound
         if isinstance(v, float) and (math.isnan(v) or math.isinf(v)):
-            return UNSPEC, v
+            return UNSPEC, v  # no declared bound speaks about it; a documented cross-field range may still exclude it
         if kind == "int" and not isinstance(v, int):
             return UNSPEC, v
         ok = True
